@@ -62,7 +62,7 @@ fn norm(e: &Ev, with_link: bool) -> Option<Value> {
 
 fn world_of(e: &Ev) -> u8 {
     match e {
-        Ev::Deliver { world, .. } | Ev::Enter { world, .. } | Ev::Build { world, .. } | Ev::Exit { world, .. } | Ev::Return { world, .. } | Ev::Module { world, .. } => *world,
+        Ev::Deliver { world, .. } | Ev::Enter { world, .. } | Ev::Build { world, .. } | Ev::Exit { world, .. } | Ev::Return { world, .. } | Ev::Module { world, .. } | Ev::New { world, .. } => *world,
     }
 }
 
@@ -200,6 +200,16 @@ pub fn check_overrides(rec: &RunRecord, reg: &crate::reg::Reg, cells: &mut Cells
                 let enters = d.enters();
                 let ov = e.spec.overrides.contains(&kind);
                 cells.hit(format!("c06|{}|{}|{}", d.entry(), if ov { "overridden" } else { "generated" }, if d.flavour() == 0 { "mt" } else { "ep" }));
+                // a generated entry point builds the contract with its parameterless constructor for
+                // every call (the reference deployment holds one value for the lifetime of the code)
+                if !ov && d.flavour() == 1 && e.spec.entry_points && !enters.is_empty() {
+                    let built = d.direct.iter().filter(|ev| matches!(ev, Ev::New { cid, .. } if cid == d.cid())).count();
+                    cells.hit(format!("c06.constructed|{}|{}", d.entry(), built.min(2)));
+                    // (the reply dispatcher builds a second value for the method call: at least one)
+                    if built == 0 {
+                        out.push(Finding::new("C06", "c06.constructor", r.idx, format!("{}: the generated {} entry point built the contract {} times for this call, it has to use a value of its own (handlers run: {:?})", d.cid(), d.entry(), built, enters.iter().map(|x| x.0).collect::<Vec<_>>())));
+                    }
+                }
                 if ov {
                     let want = format!("override:{}", d.entry());
                     // the override's own message type may reject the document: then nothing runs
